@@ -33,8 +33,12 @@ def real_init(start, w):
     return (1 << w) - (M - start) if start >= M // 2 else start
 
 
-def to_beh(h, w, rnd):
+def to_beh(h, w, rnd, hi=0):
+    # hi > 0: the configured initial value has bits above the configured width (hi * 2^w + value): the allocator must
+    # behave as for the value masked to the width (never TOI 0, never beyond the width)
     init = real_init(h["start"], w)
+    if init is not None and hi:
+        init += hi << w
     ops = []
     for op in h["ops"]:
         if op[0] == "droptoi" and rnd.random() < 0.3:
@@ -68,10 +72,11 @@ def main(ctx):
         for h in hs:
             if ctx.tier == "quick":
                 for w in rnd.sample(WIDTHS, 2):
-                    behs.append(to_beh(h, w, rnd))
+                    behs.append(to_beh(h, w, rnd, rnd.choice([0, 0, 1, 2, 255]) if w <= 112 else 0))
             else:
                 for w in WIDTHS:
-                    behs.append(to_beh(h, w, rnd))
+                    for hi in (0, 1, 255):
+                        behs.append(to_beh(h, w, rnd, hi))
     # random default initial value (toi_initial_value = None)
     hs = gen(ctx, 1, 4)
     for i in range(40 if ctx.tier == "quick" else 200):
